@@ -406,6 +406,8 @@ CP2K_OPS = [
     ("data", "MOTION->MD", {"STEPS": 7, "TIMESTEP": 0.25}),
     ("data", "MOTION->PRINT->TRAJECTORY->EACH", {"MD": 3}),
     ("data", "GLOBAL", {"PRINT_LEVEL": "LOW"}),
+    # new keywords whose value is zero (a value like any other)
+    ("data", "MOTION->MD->THERMOSTAT", {"TIMECON": 0.0, "REGION": "GLOBAL"}),
     ("replace", "GLOBAL", ["PROJECT x", "RUN_TYPE MD"]),
     ("replace", "FORCE_EVAL->SUBSYS->COORD", ["H 1 2 3"]),
     ("data", "FORCE_EVAL->SUBSYS->KIND->H", {"BASIS_SET": "SZV"}),
